@@ -8,5 +8,8 @@ import "sync"
 // acquisitions are scheduling points of the simulation harness (lock_on.go).
 type RWMutex = sync.RWMutex
 
-// NameLock names a lock for the harness.
-func NameLock(m *RWMutex, name string) {}
+// Mutex is sync.Mutex itself in ordinary builds.
+type Mutex = sync.Mutex
+
+// NameLock names a lock (a *RWMutex or *Mutex) for the harness.
+func NameLock(m any, name string) {}
